@@ -42,6 +42,17 @@ def gen_program(rng, nfun=None, big=True):
     return prog
 
 
+def add_reader(prog, rng):
+    """Adds a second entry point `fr`: a data function that dds.load()s one of the producer's paths (it does not
+    produce that path itself)."""
+    ps = kept_paths(prog)
+    p = rng.choice(ps)
+    prog["funcs"]["fr"] = {"mod": "m0", "kind": "data", "params": [], "ver": 1, "ret": "tuple", "pad": 0,
+                           "path": "/rd/out", "body": [{"t": "load", "path": p}], "comment": 0, "end": False}
+    prog["order"].append("fr")
+    return p
+
+
 def _add_ref(funcs, caller, callee, rng):
     g = funcs[callee]
     if g["kind"] == "data":
